@@ -42,15 +42,24 @@ def evaluate(ctx, progs):
     cov = {"programs": len(lines)}
     if not lines:
         return cov
-    p = vlib.srun(["bash", "-c", f"ulimit -s unlimited; exec {vlib.MODEL} c01pipe"], input="\n".join(lines) + "\n",
-                       stdout=subprocess.PIPE, stderr=subprocess.PIPE, text=True, timeout=3000)
-    if p.returncode != 0:
-        ctx.broken_ties.append(("model driver c01pipe", p.stderr[-1000:]))
+    # the composite model + fragment predicates cost ~0.4 s per program: spread the programs over
+    # several driver processes (answers are per line, order does not matter)
+    from concurrent.futures import ThreadPoolExecutor
+    jobs = max(1, min(12, len(lines) // 20 + 1))
+    chunks = [lines[i::jobs] for i in range(jobs)]
+
+    def _one(chunk):
+        return vlib.srun(["bash", "-c", f"ulimit -s unlimited; exec {vlib.MODEL} c01pipe"], input="\n".join(chunk) + "\n",
+                         stdout=subprocess.PIPE, stderr=subprocess.PIPE, text=True, timeout=3000)
     res = {}
-    for l in p.stdout.split("\n"):
-        f = l.split("\t")
-        if len(f) >= 4:
-            res[f[0]] = f[1:] + [""] * (12 - len(f[1:]))
+    with ThreadPoolExecutor(max_workers=jobs) as ex:
+        for p in ex.map(_one, chunks):
+            if p.returncode != 0:
+                ctx.broken_ties.append(("model driver c01pipe", p.stderr[-1000:]))
+            for l in p.stdout.split("\n"):
+                f = l.split("\t")
+                if len(f) >= 4:
+                    res[f[0]] = f[1:] + [""] * (12 - len(f[1:]))
     n = {"EQ": 0, "EQT": 0, "DIFF": 0, "UNSUPPORTED": 0}
     n_in = n_out = n_from_mono = 0
     agree_m = definite_m = 0
